@@ -263,12 +263,30 @@ func (hash *SexpHash) HashGetDefault(env *Zlisp, key Sexp, defaultval Sexp) (Sex
 	}
 
 	for _, pair := range arr {
-		res, err := env.Compare(pair.Head, key)
+		res, err := compareKeys(env, pair.Head, key)
 		if err == nil && res == 0 {
 			return pair.Tail, nil
 		}
 	}
 	return defaultval, nil
+}
+
+// compareKeys is Compare for two hash keys. A symbol is a key by
+// what it is, not by what it names: Compare follows a dot-symbol
+// (x.y) to the value it refers to, so two different symbols whose
+// referents are equal would be one key, and a symbol whose referent
+// is unbound would not even match itself. Symbols are the same key
+// when their numbers are the same.
+func compareKeys(env *Zlisp, a Sexp, b Sexp) (int, error) {
+	sa, aIsSym := a.(*SexpSymbol)
+	sb, bIsSym := b.(*SexpSymbol)
+	switch {
+	case aIsSym && bIsSym:
+		return env.compareSymbol(sa, sb)
+	case aIsSym || bIsSym:
+		return 1, nil
+	}
+	return env.Compare(a, b)
 }
 
 var KeyNotSymbol = fmt.Errorf("key is not a symbol")
@@ -412,7 +430,7 @@ func (hash *SexpHash) HashSet(key Sexp, val Sexp) error {
 
 	found := false
 	for i, pair := range arr {
-		res, err := hash.Env.Compare(pair.Head, key)
+		res, err := compareKeys(hash.Env, pair.Head, key)
 		if err == nil && res == 0 {
 			arr[i] = Cons(key, val)
 			found = true
@@ -444,7 +462,7 @@ func (hash *SexpHash) HashDelete(key Sexp) error {
 	}
 
 	for i, pair := range arr {
-		res, err := hash.Env.Compare(pair.Head, key)
+		res, err := compareKeys(hash.Env, pair.Head, key)
 		if err == nil && res == 0 {
 			// only a key that is present changes the hash: take
 			// the pair out of its bucket, and keep NumKeys and
@@ -463,7 +481,7 @@ func (hash *SexpHash) HashDelete(key Sexp) error {
 				if kh, herr := HashExpression(nil, k); herr != nil || kh != hashval {
 					continue
 				}
-				r, err := hash.Env.Compare(k, pair.Head)
+				r, err := compareKeys(hash.Env, k, pair.Head)
 				if err == nil && r == 0 {
 					hash.KeyOrder = append(hash.KeyOrder[:j:j], hash.KeyOrder[j+1:]...)
 					break
